@@ -113,7 +113,14 @@ def search(prop, tier, seed, scratch, root, cases=None):
     try:
         j = json.loads(rr.get('full_output', rr['output']).strip().split('\n')[-1])
     except Exception:
-        row['undecided'] = 'search output unreadable: ' + rr.get('output', '')[-200:] + rr.get('stderr', '')[-200:]; return row
+        # the search process died (abort / allocation failure / stack overflow inside the real code): find the case that kills it
+        tr = RP.run_bin('stream_search', scratch, [str(seed + 1), str(n)], timeout=1500, env={'VX_TRACE': '1'})
+        last = [l for l in tr.get('full_output', '').split('\n') if l.startswith('TRY ')]
+        if not last:
+            row['undecided'] = 'search output unreadable: ' + rr.get('output', '')[-200:] + rr.get('stderr', '')[-200:]; return row
+        j = json.loads(last[-1][4:])
+        j['props'] = ['C09']; j['crash'] = 'the process running the real code terminated abnormally (rc=%s): %s' % (tr.get('rc'), tr.get('stderr', '')[-300:])
+        rr['fails'] = True
     if not rr['fails']:
         row['result'] = 'no deviation'; row['distinct_nontrivial'] = j.get('distinct_streams', 0)
         row['bound'] = '%d random streams (generator: frames, lists, ACKs, binary incl. >4 KiB, truncation/corruption) x random segmentations, seed %d' % (n, seed + 1)
